@@ -1110,17 +1110,24 @@ example : (constructSR { exOptions with transferSyntax := "1.2.840.10008.1.2" } 
 attributes, values opaque) -/
 
 open HdVerif.SRTree in
-/-- **"An SR document contains the content tree it was given, unchanged."**  For ANY tree the constructor accepts
-(`convertRoot` = `ContentItem._from_dataset_derived` on the copied root followed by `ContentSequence([…], is_root=True)`),
-the tree the document holds is the given tree with the default concept name stored on exactly the data sets that lack a
-name and may lack one (`named`, the behaviour of `ContentItem._from_dataset_base`); if no data set lacks a name it IS the
-given tree — every attribute of every data set at every depth, children in order (induction over the tree, `convert_eq_named`).
-Tie: the decisions are over tables regenerated on every run (T15e, T15j); that the per-value-type parsers store nothing but
-re-wrapped copies of the attribute they read is `parsers_store_only_what_they_read` (T15j); attribute VALUES are opaque
-here — the canonical-form comparison of the correspondence (`.content`, the data set, the written file, `srread`,
-`from_dataset`) carries them. -/
-theorem tree_carried_unchanged (t t' : Node) (h : convertRoot t = .ok t') :
+/-- **"An SR document contains the content tree it was given, unchanged" — over the regenerated table of what the parsers
+store.**  `convertRootT X` is the conversion of the copied tree as the source performs it: acceptance and default concept
+names by `convertRoot` (`ContentItem._from_dataset_derived` … `ContentSequence([…], is_root=True)`, decisions over the
+tables T15e / T15j), and the effect on the attribute VALUES by `Gen.srParserStores` (T15j: every attribute / item store
+and deletion of `ContentItem._from_dataset_base`, of the fifteen `from_dataset` methods and of the helpers they call on the
+data set, each classified by what it does to the value; plus `Gen.srParserOtherCalls`: every call that is not a known pure
+one).  A store the model does not know applies an ARBITRARY transformation `X` to the value it stores.  Theorem: for every
+`X`, the tree the document holds is the given tree with the default concept name stored exactly where `_from_dataset_base`
+stores it (`named`), and it IS the given tree when no data set lacks a name — because the table holds no unknown store and
+no unknown call (`parser_stores_known`).  A parser that strips, recomputes, drops or re-targets a value (`item.TextValue =
+item.TextValue.strip()`, `del item.ObservationDateTime`, a NUM unit stored as qualifier, `item.pop(…)`) adds an `other:` row
+or a call to the tables and this theorem fails.  What remains an assumption: a `rewrap` store
+(`[CodedConcept.from_dataset(item.X[0], copy=False)]` stored back to `item.X`) leaves the canonical value unchanged — that
+is C17's subject and is compared attribute by attribute on every generated code (stream `doc` / `coded`); `deepcopy` and
+pydicom's element storage are Python's / pydicom's (canonical comparison per case). -/
+theorem tree_carried_unchanged (X : String → String → String) (t t' : Node) (h : convertRootT X t = .ok t') :
     t' = named t ∧ (AllNamed t → t' = t) := by
+  rw [convertRootT_eq] at h
   have := convertRoot_eq_named t t' h
   exact ⟨this, fun hn => by rw [this, named_eq_self t hn]⟩
 
@@ -1150,11 +1157,14 @@ Then `_SR.from_dataset` of the document data set (`writeDoc own t'`) succeeds an
 (`rootKeys`, from the source: T15d), the same value; if the root carries no other keyword, the same value for EVERY
 keyword.  Reading the bytes back (`dcmwrite` / `dcmread`) is pydicom's and enters as the identity on data sets (checked on
 every case by the correspondence: written bytes re-read with pydicom alone). -/
-theorem parsed_tree_equals_document_tree (own : Attrs) (t t' : Node) (hconv : convertRoot t = .ok t')
+theorem parsed_tree_equals_document_tree (X : String → String → String) (own : Attrs) (t t' : Node)
+    (hconv : convertRootT X t = .ok t')
     (hseq : t'.hasSeq = true) (hown : ∀ kw, rootKeys.contains kw = true → own.lookup kw = none) :
-    ∃ p, parseDoc (writeDoc own t') = .ok p ∧ p.hasSeq = true ∧ p.children = t'.children ∧
+    ∃ p, parseDocT X (writeDoc own t') = .ok p ∧ p.hasSeq = true ∧ p.children = t'.children ∧
       (∀ kw, p.attrs.lookup kw = if rootKeys.contains kw then t'.attrs.lookup kw else none) ∧
       ((∀ kv ∈ t'.attrs, rootKeys.contains kv.1 = true) → ∀ kw, p.attrs.lookup kw = t'.attrs.lookup kw) := by
+  rw [convertRootT_eq] at hconv
+  rw [parseDocT_eq]
   obtain ⟨p, h1, h2, h3, h4⟩ := parse_written_root own t t' hconv hseq hown
   refine ⟨p, h1, h2, h3, h4, ?_⟩
   intro hall kw
@@ -1192,13 +1202,18 @@ content item class and a row of required attributes (no KeyError in `_get_conten
 dispatch).  (3) Every attribute store of `ContentItem._from_dataset_base` and of the fifteen `from_dataset` methods reads
 only DICOM keywords that occur in its own target path — a parser re-wraps `item.X` as `item.X`, never as `item.Y`
 (a NUM unit stored as qualifier, a coded value rebuilt from the concept name … make this fail); the two stores that read
-nothing are the class change and the default concept name. -/
+nothing are the class change and the default concept name.  (4) Every store is one of the four kinds the model knows
+(class change, default name, conversion of the children, re-wrap of a code sequence item stored back where it was read) and
+the parsers make no call outside the known pure / constructing ones — the fact `tree_carried_unchanged` rests on. -/
 theorem parsers_store_only_what_they_read :
     (Gen.srValueTypes.all fun vt => (Gen.srContentItemClasses.lookup vt).isSome && (Gen.srRequiredAttributes.lookup vt).isSome) = true ∧
     (Gen.srContentItemClasses.all fun (vt, cls) => Gen.srParserAsserts.lookup cls == some vt) = true ∧
-    (Gen.srParserStores.all fun (_, _, path, reads) => reads.all fun kw => path.contains kw) = true ∧
-    (Gen.srParserStores.filter fun (_, _, _, reads) => reads.isEmpty) =
-      [("ContentItem", "dataset.ConceptNameCodeSequence", ["ConceptNameCodeSequence"], []), ("ContentItem", "item.__class__", [], [])] ∧
+    (Gen.srParserStores.all fun (_, _, path, reads, _) => reads.all fun kw => path.contains kw) = true ∧
+    (Gen.srParserStores.filter fun (_, _, _, reads, _) => reads.isEmpty) =
+      [("ContentItem", "dataset.ConceptNameCodeSequence", ["ConceptNameCodeSequence"], [], "default-name"),
+       ("ContentItem", "item.__class__", [], [], "class")] ∧
+    (Gen.srParserStores.all fun r => ["class", "default-name", "children", "rewrap"].contains r.2.2.2.2) = true ∧
+    Gen.srParserOtherCalls = [] ∧
     Gen.srOptionalNameClasses.all (fun cls => (Gen.srContentItemClasses.map Prod.snd).contains cls) = true := by
   decide +kernel
 
@@ -1343,6 +1358,9 @@ def exNodeBad : SRTree.Node :=
 
 open HdVerif.SRTree in
 example : (convertRoot exNode).toBool = true ∧ (convertRoot exNodeBad).toBool = false := by decide +kernel
+open HdVerif.SRTree in
+example : (convertRootT (fun act v => act ++ v) exNode).toBool = true ∧
+    unknownStores "NumContentItem" "MeasuredValueSequence" = [] ∧ unknownStores "TextContentItem" "TextValue" = [] := by decide +kernel
 open HdVerif.SRTree in
 example : (convertRoot exNode).map (fun t => (t.children.head?.bind (·.children[1]?)).map (·.attrs.lookup "ConceptNameCodeSequence")) =
     .ok (some (some "260753009|SCT|Source")) := by decide +kernel
